@@ -73,19 +73,31 @@ def relayout(a: np.ndarray, layout: str) -> np.ndarray:
     return a
 
 
-def rec_match(pred, ref, kind: str, mm: str, thr, chain=(), dtype=np.uint8, meta=None, layout="C") -> dict:
-    """One call of match_instances (plus the same input at the thresholds of `chain`)."""
+def rec_match(pred, ref, kind: str, mm: str, thr, chain=(), dtype=np.uint8, meta=None, layout="C", history=()) -> dict:
+    """One call of match_instances (plus the same input at the thresholds of `chain`).
+    history: matchings (kind, metric, threshold) done before ON THE SAME PAIR OBJECT, results discarded;
+    with a history the judged calls use that very object too (a pair that was matched before is as
+    valid an input as a fresh one)."""
     pred = relayout(_dtype_for(pred, dtype), layout)
     ref = relayout(_dtype_for(ref, dtype), layout)
     rec = {"shape": shape_of(ref), "matcher": kind, "mm": mm, "thr": list(thr), "out": "ok",
            "mp": [], "mr": [], "chain": [], "meta": dict(meta or {})}
     rec["meta"].update({"dtype": str(np.dtype(dtype)), "raw_pred": pred.ravel().tolist(),
-                        "raw_ref": ref.ravel().tolist(), "layout": layout, "tie_risk": tie_risk(pred, ref)})
+                        "raw_ref": ref.ravel().tolist(), "layout": layout, "tie_risk": tie_risk(pred, ref),
+                        "history": [[hk, hm, list(ht)] for hk, hm, ht in history]})
     outs = []
     try:
         with quiet(), mem_limit():
+            shared = None
+            if history:
+                shared = UnmatchedInstancePair(relayout(pred.copy(), layout), relayout(ref.copy(), layout))
+                for hk, hm, ht in history:
+                    try:
+                        make_matcher(hk, hm, ht).match_instances(shared)
+                    except Exception:  # noqa: BLE001   (whether THAT call works is another record's business)
+                        pass
             for t in [thr] + list(chain):
-                pair = UnmatchedInstancePair(relayout(pred.copy(), layout), relayout(ref.copy(), layout))
+                pair = shared if shared is not None else UnmatchedInstancePair(relayout(pred.copy(), layout), relayout(ref.copy(), layout))
                 m = make_matcher(kind, mm, t).match_instances(pair)
                 outs.append((t, np.asarray(m.prediction_arr), np.asarray(m.reference_arr)))
     except Exception as e:  # noqa: BLE001  an exception is an observation (C03: must terminate with a result)
